@@ -59,8 +59,13 @@ AgreeMulti(gs) == \/ Len(gs) <= 1
                                                THEN \/ DocsPrefix(gs[i].docs, gs[1].docs) /\ Len(gs[1].docs) - Len(gs[i].docs) <= 1
                                                     \/ DocsPrefix(gs[1].docs, gs[i].docs) /\ Len(gs[i].docs) - Len(gs[1].docs) <= 1
                                                ELSE Len(gs[i].docs) = Len(gs[1].docs) /\ DocsPrefix(gs[i].docs, gs[1].docs)
-Summary(gs) == [i \in 1..Len(gs) |-> [as |-> gs[i].as, r |-> gs[i].r]]
-SummaryM(gs) == [i \in 1..Len(gs) |-> [as |-> gs[i].as, r |-> IF gs[i].err THEN 0 ELSE 1, nd |-> Len(gs[i].docs)]]
+\* the harness merges observations with identical projections; groups that are equal in the sense of the specification
+\* (same outcome, ValEq values) get the same class number, so that a representation difference is never blamed
+SameSingle(a, b) == a.r = b.r /\ (a.r # 1 \/ ValEq(a.v, b.v))
+ClassOf(gs, i, Same(_, _)) == CHOOSE j \in 1..i : Same(gs[j], gs[i]) /\ \A q \in 1..(j - 1) : ~Same(gs[q], gs[i])
+Summary(gs) == [i \in 1..Len(gs) |-> [as |-> gs[i].as, r |-> gs[i].r, cl |-> ClassOf(gs, i, SameSingle)]]
+SameMulti(a, b) == AgreeMulti(<<a, b>>)
+SummaryM(gs) == [i \in 1..Len(gs) |-> [as |-> gs[i].as, r |-> IF gs[i].err THEN 0 ELSE 1, nd |-> Len(gs[i].docs), cl |-> ClassOf(gs, i, SameMulti)]]
 StrictValid(x) == LET e == RunSeq(S0, x) IN Accepts(e) /\ HasDoc(e)
 Judge(k) ==
   LET o == Trace[k].o
